@@ -253,6 +253,9 @@ func (c *fctx) whileStmt(s *ast.ForStmt, next func() string) string {
 		return stateTuple(xs)
 	}
 	simple := !containsReturn(blk) && !c.containsFueled(blk)
+	oldCont := c.contK
+	c.contK = nil // continue in a for-cond loop would have to run the post statement: refused
+	defer func() { c.contK = oldCont }()
 	var body string
 	if simple {
 		body = c.stmts(list, wt)
@@ -312,9 +315,12 @@ func (c *fctx) loopCtl(body *ast.BlockStmt, items string, itemPat func() string,
 		}
 		return stateTuple(xs)
 	}
+	oldCont := c.contK
+	c.contK = func() string { return "(Go_next " + wt() + ")" }
 	b := c.inCtl(func() string {
 		return c.stmts(body.List, func() string { return "(Go_next " + wt() + ")" })
 	})
+	c.contK = oldCont
 	c.env = copyMap(saved)
 	var names []string
 	for _, k := range w {
